@@ -31,6 +31,13 @@
 (***************************************************************************)
 EXTENDS Naturals, Sequences, FiniteSets, TLC
 
+\* Lexical facts about spellings that occur in recorded executions (trace validation binds them
+\* to tables computed by the projection from the trace; the enumeration binds them to <<>>):
+CONSTANTS ExtClass,    \* spelling -> class "n" | "p" | "s" | "i"
+          ExtEsc,      \* string / character literal -> its spelling inside a # result
+          ExtSep       \* what # writes between two spellings: " " (source tokens are separated by white
+                       \* space) for the enumeration, "" for traces (literals compared modulo white space)
+
 \* ---- lexical classes of the spellings used by the enumerations ------------
 Nums   == {"0", "1", "2", "3", "5"}
 Puncts == {"+", "-", "*", "(", ")", ",", "=", "[", "]", "<", ";"}
@@ -43,8 +50,11 @@ EscTab == [ s \in {"\"O,F\"", "'F'", "\"a\\n\"", "\"G(1)\"", "'\"'"} |->
               [] s = "'\"'"     -> "'\\\"'" ]
 Markers == {"$U", "$A", "$P", "$X", "$M"}
 
-ClassOf(s) == IF s \in Nums THEN "n" ELSE IF s \in Puncts THEN "p"
+ClassOf(s) == IF s \in DOMAIN ExtClass THEN ExtClass[s]
+              ELSE IF s \in Nums THEN "n" ELSE IF s \in Puncts THEN "p"
               ELSE IF s \in DOMAIN EscTab THEN "s" ELSE IF s \in Markers THEN "m" ELSE "i"
+EscOf(s) == IF s \in DOMAIN EscTab THEN EscTab[s] ELSE ExtEsc[s]
+CanEsc(s) == s \in DOMAIN EscTab \/ s \in DOMAIN ExtEsc
 Tok(s)    == [t |-> s, hs |-> {}, c |-> ClassOf(s)]
 Toks(ss)  == [i \in 1..Len(ss) |-> Tok(ss[i])]
 Texts(ts) == [i \in 1..Len(ts) |-> ts[i].t]
@@ -92,10 +102,10 @@ Select(d, ap, name) ==
 \* white space), " and \ of string / character literals escaped
 RECURSIVE Spell(_)
 Spell(ts) == IF ts = <<>> THEN ""
-             ELSE LET h == IF ts[1].c = "s" THEN EscTab[ts[1].t] ELSE ts[1].t
-                  IN IF Len(ts) = 1 THEN h ELSE h \o " " \o Spell(Tail(ts))
+             ELSE LET h == IF ts[1].c = "s" THEN EscOf(ts[1].t) ELSE ts[1].t
+                  IN IF Len(ts) = 1 THEN h ELSE h \o ExtSep \o Spell(Tail(ts))
 Stringize(ts) ==
-  IF \E i \in 1..Len(ts) : ts[i].c = "m" \/ (ts[i].c = "s" /\ ts[i].t \notin DOMAIN EscTab)
+  IF \E i \in 1..Len(ts) : ts[i].c = "m" \/ (ts[i].c = "s" /\ ~CanEsc(ts[i].t))
   THEN Tok("$M")
   ELSE [t |-> "\"" \o Spell(ts) \o "\"", hs |-> {}, c |-> "s"]
 
@@ -286,5 +296,5 @@ NoResidualIn(D, line) ==
 NoResidual == out # <<>> /\ ~OutOfDomain(Last(out)) => NoResidualIn(defs, Last(out).ts)
 
 \* hide sets only ever name macros
-HideSetsAreNames == \A i \in 1..Len(out) : \A j \in 1..Len(out[i].ts) : out[i].ts[j].hs \subseteq {"F", "G", "H", "O", "P", "Q"}
+HideSetsAreNames == out # <<>> => \A j \in 1..Len(Last(out).ts) : Last(out).ts[j].hs \subseteq DOMAIN defs
 =============================================================================
